@@ -618,4 +618,286 @@ theorem replace_qq (s : Txt) : (replace s (lit "\"\"") (lit "\"")).toList = unes
   rw [if_neg (by omega), replace_qq_go s (s.size + 1) 0 #[] (Nat.zero_le _) (by omega)]
   simp
 
+/-! ## `replace("\r\n", "\n")` -/
+
+/-- `text.replace("\r\n", "\n")` on lists -/
+def uncrlfL : List Char → List Char
+  | c :: d :: cs => if c = '\r' ∧ d = '\n' then '\n' :: uncrlfL cs else c :: uncrlfL (d :: cs)
+  | cs => cs
+
+theorem replace_crlf_go (s : Txt) (fuel i : Nat) (acc : Txt) (hi : i ≤ s.size) (hf : s.size - i < fuel) :
+    (replace.go s (lit "\r\n") (lit "\n") fuel i acc).toList = acc.toList ++ uncrlfL (s.toList.drop i) := by
+  induction fuel generalizing i acc with
+  | zero => omega
+  | succ fuel ih =>
+    unfold replace.go
+    by_cases hge : i ≥ s.size
+    · rw [if_pos hge, drop_nil_of_ge s i (by omega)]; simp [uncrlfL]
+    · rw [if_neg hge, startsAt_eq s _ i hi]
+      have hl : (lit "\r\n").toList = ['\r', '\n'] := rfl
+      have hl1 : (lit "\n").toList = ['\n'] := rfl
+      have hsz : (lit "\r\n").size = 2 := rfl
+      rw [hl]
+      have hlt : i < s.toList.length := by simp only [Array.length_toList]; omega
+      rw [List.drop_eq_getElem_cons hlt]
+      cases hr : s.toList.drop (i + 1) with
+      | nil =>
+        simp only [List.isPrefixOf, Bool.and_false, Bool.false_eq_true, if_false]
+        rw [ih (i + 1) _ (by omega) (by omega), hr]
+        have : s[i]! = s.toList[i] := by simp [show i < s.size by omega]
+        simp [uncrlfL, this]
+      | cons d ds =>
+        have hlt2 : i + 1 < s.toList.length := by
+          apply Classical.byContradiction; intro hn
+          rw [List.drop_eq_nil_of_le (by omega)] at hr; cases hr
+        have hds : s.toList.drop (i + 2) = ds := by
+          have := List.drop_eq_getElem_cons hlt2
+          rw [hr] at this
+          exact (List.cons.inj this).2.symm
+        simp only [List.isPrefixOf, Bool.and_true]
+        by_cases hqq : ('\r' == s.toList[i] && '\n' == d) = true
+        · rw [if_pos hqq]
+          simp only [Bool.and_eq_true, beq_iff_eq] at hqq
+          have hsz2 : i + 2 ≤ s.size := by simp only [Array.length_toList] at hlt2; omega
+          rw [hsz, ih (i + 2) _ hsz2 (by omega), hds]
+          simp [uncrlfL, ← hqq.1, ← hqq.2, hl1]
+        · rw [if_neg hqq]
+          rw [ih (i + 1) _ (by omega) (by omega), hr]
+          have : s[i]! = s.toList[i] := by simp [show i < s.size by omega]
+          have hne : ¬ (s.toList[i] = '\r' ∧ d = '\n') := by
+            intro ⟨h1, h2⟩; apply hqq; simp [h1, h2]
+          have hu : uncrlfL (s.toList[i] :: d :: ds) = s.toList[i] :: uncrlfL (d :: ds) := by
+            rw [uncrlfL, if_neg hne]
+          rw [hu, this]
+          simp
+
+theorem replace_crlf (s : Txt) : (replace s (lit "\r\n") (lit "\n")).toList = uncrlfL s.toList := by
+  unfold replace
+  have hsz : (lit "\r\n").size = 2 := rfl
+  rw [if_neg (by omega), replace_crlf_go s (s.size + 1) 0 #[] (Nat.zero_le _) (by omega)]
+  simp
+
+theorem startsAt_eq' (s pat : Txt) (i : Nat) (hp : 0 < pat.size) :
+    startsAt s pat i = pat.toList.isPrefixOf (s.toList.drop i) := by
+  by_cases hi : i ≤ s.size
+  · exact startsAt_eq s pat i hi
+  · rw [drop_nil_of_ge s i (by omega)]
+    unfold startsAt
+    have : ¬ i + pat.size ≤ s.size := by omega
+    simp only [this, decide_false, Bool.false_and]
+    cases hl : pat.toList with
+    | nil =>
+      have h0 : pat.toList.length = 0 := by rw [hl]; rfl
+      simp only [Array.length_toList] at h0; omega
+    | cons a as => rfl
+
+/-! ## the long-format reader restated on lists -/
+
+def needL (o : Option (List Char)) : Except Err (List Char) :=
+  match o with
+  | some x => .ok x
+  | none => .error .ParsingError
+
+def readEntryL (isI : Bool) (el : List Char) : Except Err (List String) := do
+  if isI then
+    let s1 ← needL (scanL "xmin".toList (numAfter true) el)
+    let e1 ← needL (scanL "xmax".toList (numAfter false) el)
+    let lb ← needL (scanL "text".toList (textAfter true) el)
+    pure [String.ofList s1, String.ofList e1, String.ofList (unescapeL (stripList lb))]
+  else
+    let t1 ← needL (scanL "number".toList (numAfter true) el)
+    let lb ← needL (scanL "mark".toList (textAfter true) el)
+    pure [String.ofList t1, String.ofList (unescapeL (stripList lb))]
+
+def readTierL (tt : List Char) : Except Err RawTier := do
+  let isI := (findL "class = \"IntervalTier\"".toList tt).isSome
+  let kw := (if isI then "intervals" else "points").toList
+  let d := splitL (kw ++ [' ', '[']) (kw ++ ['[']) 0 tt []
+  let hdr := d.headD []
+  let els := d.drop 1
+  let name ← needL (scanL "name".toList (textAfter false) hdr)
+  let st ← needL (scanL "xmin".toList (numAfter true) hdr)
+  let en ← needL (scanL "xmax".toList (numAfter false) hdr)
+  let entries ← els.mapM (readEntryL isI)
+  pure ({ cls := if isI then "IntervalTier" else "TextTier", name := String.ofList (unescapeL name), xmin := String.ofList st,
+          xmax := String.ofList en, entries := entries } : RawTier)
+
+/-- `line.split(sep)` on lists (the loop of `Txt.splitChar`) -/
+def splitCharL (sep : Char) : List Char → List Char → List (List Char) → List (List Char)
+  | [], cur, acc => (cur.reverse :: acc).reverse
+  | c :: cs, cur, acc => if c == sep then splitCharL sep cs [] (cur.reverse :: acc) else splitCharL sep cs (c :: cur) acc
+
+def nthL (l : List (List Char)) (k : Nat) : Except Err (List Char) :=
+  match l[k]? with
+  | some x => .ok x
+  | none => .error .IndexError
+
+def headerFieldL (hl : List (List Char)) (k : Nat) : Except Err (List Char) := do
+  let line ← nthL hl k
+  let v ← nthL (splitCharL '=' line [] []) 1
+  pure (stripList v)
+
+/-- `_parseNormalTextgrid` on lists -/
+def parseLongL (l0 : List Char) : Except Err RawTg := do
+  let l := uncrlfL l0
+  match splitL "item [".toList "item[".toList 0 l [] with
+  | [] | [_] => throw .ValueError
+  | header :: _ =>
+    let rest := l.drop (header.length + (if "item [".toList.isPrefixOf (l.drop header.length) then 6 else 5))
+    let hl := splitCharL '\n' header [] []
+    let tgMin ← headerFieldL hl 3
+    let tgMax ← headerFieldL hl 4
+    let tiers ← ((splitL "item [".toList "item[".toList 0 rest []).drop 1).mapM readTierL
+    pure ⟨String.ofList tgMin, String.ofList tgMax, tiers⟩
+
+theorem need_map (o : Option (List Char)) : need (o.map List.toArray) = (needL o).map List.toArray := by
+  cases o <;> rfl
+
+theorem toStr_toArray' (l : List Char) : toStr l.toArray = String.ofList l := rfl
+
+theorem readEntryLong_eq (isI : Bool) (el : List Char) : readEntryLong isI el.toArray = readEntryL isI el := by
+  have e1 : (lit "xmin").toList = "xmin".toList := rfl
+  have e2 : (lit "xmax").toList = "xmax".toList := rfl
+  have e3 : (lit "text").toList = "text".toList := rfl
+  have e4 : (lit "number").toList = "number".toList := rfl
+  have e5 : (lit "mark").toList = "mark".toList := rfl
+  have hu : ∀ lb : List Char, toStr (replace (strip lb.toArray) (lit "\"\"") (lit "\"")) = String.ofList (unescapeL (stripList lb)) := by
+    intro lb; unfold toStr; rw [replace_qq]; rfl
+  unfold readEntryLong readEntryL
+  cases isI with
+  | true =>
+    simp only [if_true, matchNum_eq _ _ _ (show 0 < (lit "xmin").size by decide),
+      matchNum_eq _ _ _ (show 0 < (lit "xmax").size by decide), matchText_eq _ _ _ (show 0 < (lit "text").size by decide),
+      e1, e2, e3, need_map]
+    cases needL (scanL "xmin".toList (numAfter true) el) with
+    | error e => rfl
+    | ok a =>
+      cases needL (scanL "xmax".toList (numAfter false) el) with
+      | error e => rfl
+      | ok b =>
+        cases needL (scanL "text".toList (textAfter true) el) with
+        | error e => rfl
+        | ok c => simp [Except.map, bind, Except.bind, pure, Except.pure, toStr_toArray', hu]
+  | false =>
+    simp only [Bool.false_eq_true, if_false, matchNum_eq _ _ _ (show 0 < (lit "number").size by decide),
+      matchText_eq _ _ _ (show 0 < (lit "mark").size by decide), e4, e5, need_map]
+    cases needL (scanL "number".toList (numAfter true) el) with
+    | error e => rfl
+    | ok a =>
+      cases needL (scanL "mark".toList (textAfter true) el) with
+      | error e => rfl
+      | ok c => simp [Except.map, bind, Except.bind, pure, Except.pure, toStr_toArray', hu]
+
+theorem mapM_map_toArray {β : Type} (f : Txt → Except Err β) (g : List Char → Except Err β)
+    (h : ∀ x, f x.toArray = g x) (l : List (List Char)) : (l.map List.toArray).mapM f = l.mapM g := by
+  induction l with
+  | nil => rfl
+  | cons x xs ih => simp only [List.map_cons, List.mapM_cons, h, ih]
+
+theorem readTierLong_eq (tt : List Char) : readTierLong tt.toArray = readTierL tt := by
+  have e1 : (lit "xmin").toList = "xmin".toList := rfl
+  have e2 : (lit "xmax").toList = "xmax".toList := rfl
+  have e3 : (lit "name").toList = "name".toList := rfl
+  have e6 : (lit "class = \"IntervalTier\"").toList = "class = \"IntervalTier\"".toList := rfl
+  have hu : ∀ nm : List Char, toStr (replace nm.toArray (lit "\"\"") (lit "\"")) = String.ofList (unescapeL nm) := by
+    intro nm; unfold toStr; rw [replace_qq]
+  unfold readTierLong readTierL
+  simp only [contains_eq _ _ (show 0 < (lit "class = \"IntervalTier\"").size by decide), e6, splitKw_eq]
+  generalize (findL "class = \"IntervalTier\"".toList tt).isSome = isI
+  have hk : (lit (if isI = true then "intervals" else "points")).toList = (if isI = true then "intervals" else "points").toList := rfl
+  rw [hk]
+  generalize splitL ((if isI = true then "intervals" else "points").toList ++ [' ', '['])
+    ((if isI = true then "intervals" else "points").toList ++ ['[']) 0 tt [] = d
+  have hh : (d.map List.toArray).headD #[] = (d.headD []).toArray := by cases d <;> rfl
+  have hd : (d.map List.toArray).drop 1 = (d.drop 1).map List.toArray := by cases d <;> rfl
+  simp only [hh, hd, matchText_eq _ _ _ (show 0 < (lit "name").size by decide),
+    matchNum_eq _ _ _ (show 0 < (lit "xmin").size by decide), matchNum_eq _ _ _ (show 0 < (lit "xmax").size by decide),
+    e1, e2, e3, need_map, mapM_map_toArray _ _ (readEntryLong_eq isI)]
+  cases needL (scanL "name".toList (textAfter false) (d.headD [])) with
+  | error e => rfl
+  | ok a =>
+    cases needL (scanL "xmin".toList (numAfter true) (d.headD [])) with
+    | error e => rfl
+    | ok b =>
+      cases needL (scanL "xmax".toList (numAfter false) (d.headD [])) with
+      | error e => rfl
+      | ok c =>
+        simp only [Except.map, bind, Except.bind, hu, toStr_toArray']
+
+theorem slice_drop_end (s : Txt) (i : Nat) : slice s i s.size = (s.toList.drop i).toArray := by
+  apply Array.toList_inj.1
+  unfold slice
+  rw [Array.toList_extract, List.extract_eq_take_drop]
+  simp only [Nat.min_self]
+  apply List.take_of_length_le
+  simp
+
+theorem slice_drop_end' (l : List Char) (i : Nat) : slice l.toArray i l.length = (l.drop i).toArray := by
+  have := slice_drop_end l.toArray i
+  simpa using this
+
+theorem splitChar_go_eq (sep : Char) (l cur : List Char) (acc : List (List Char)) :
+    splitChar.go sep l cur (acc.map List.toArray) = (splitCharL sep l cur acc).map List.toArray := by
+  induction l generalizing cur acc with
+  | nil => simp [splitChar.go, splitCharL]
+  | cons c cs ih =>
+    simp only [splitChar.go, splitCharL]
+    split
+    · have := ih [] (cur.reverse :: acc)
+      simpa using this
+    · exact ih (c :: cur) acc
+
+theorem splitChar_eq (l : List Char) (sep : Char) :
+    splitChar l.toArray sep = (splitCharL sep l [] []).map List.toArray := by
+  unfold splitChar
+  exact splitChar_go_eq sep l [] []
+
+theorem nth?_map (l : List (List Char)) (k : Nat) : nth? (l.map List.toArray) k = (nthL l k).map List.toArray := by
+  unfold nth? nthL
+  rw [List.getElem?_map]
+  cases l[k]? <;> rfl
+
+theorem headerField_eq (hl : List (List Char)) (k : Nat) :
+    headerField (hl.map List.toArray) k = (headerFieldL hl k).map List.toArray := by
+  unfold headerField headerFieldL
+  rw [nth?_map]
+  cases nthL hl k with
+  | error e => rfl
+  | ok line =>
+    simp only [Except.map, bind, Except.bind]
+    rw [splitChar_eq, nth?_map]
+    cases nthL (splitCharL '=' line [] []) 1 with
+    | error e => rfl
+    | ok v => rfl
+
+/-- **the long-format reader model, restated on lists** (every step through its bridge lemma) -/
+theorem parseLong_eq (s : Txt) : parseLong s = parseLongL s.toList := by
+  have hdata : replace s (lit "\r\n") (lit "\n") = (uncrlfL s.toList).toArray := by
+    apply Array.toList_inj.1; rw [replace_crlf]
+  have e1 : (lit "item").toList ++ [' ', '['] = "item [".toList := by rfl
+  have e2 : (lit "item").toList ++ ['['] = "item[".toList := by rfl
+  have e3 : (lit "item [").toList = "item [".toList := rfl
+  unfold parseLong parseLongL
+  simp only [hdata, splitKw_eq, e1, e2]
+  generalize uncrlfL s.toList = l
+  cases hd : splitL "item [".toList "item[".toList 0 l [] with
+  | nil => rfl
+  | cons header tl =>
+    cases tl with
+    | nil => rfl
+    | cons y ys =>
+      simp only [List.map_cons, List.size_toArray, startsAt_eq' _ _ _ (show 0 < (lit "item [").size by decide), e3,
+        splitChar_eq, headerField_eq]
+      cases headerFieldL (splitCharL '\n' header [] []) 3 with
+      | error e => rfl
+      | ok a =>
+        cases headerFieldL (splitCharL '\n' header [] []) 4 with
+        | error e => rfl
+        | ok b =>
+          simp only [Except.map, bind, Except.bind]
+          have hdrop : ∀ d : List (List Char), (d.map List.toArray).drop 1 = (d.drop 1).map List.toArray := by
+            intro d; cases d <;> rfl
+          rw [hdrop, mapM_map_toArray _ _ readTierLong_eq, slice_drop_end']
+          rfl
+
 end Rd
